@@ -49,7 +49,7 @@ package php7
 
 // The two methods through which the LR driver talks to the scanner and to the caller (C01, C06).
 //@ func (*Parser).Lex
-//@   requires p != nil && lval != nil && lexwf(p.Lexer)
+//@   requires p != nil && lval != nil && lexinv(p.Lexer)
 //@   ensures p.currentToken != nil && lval.token == p.currentToken && result == p.currentToken.ID
 //@   props C01, C06
 
